@@ -395,7 +395,7 @@ Qed.
 Lemma shr_room_request h k q : shr h (fst (room_request h k q)).
 Proof.
   unfold room_request. destruct (room_of h k) as [r|] eqn:Hroom; [|apply shr_refl].
-  destruct q as [|users rs|tag|l|l|ic|tag].
+  destruct q as [|users rs|tag|l|l|ic|tag|ok]; [| | | | | | |apply shr_refl].
   - match goal with |- context [fold_sessions h ?int ?f] => set (internals := int); set (g := f) end.
     destruct (fold_sessions h internals g) as [h0 o0] eqn:H0.
     assert (R0 : shr h h0).
@@ -480,7 +480,7 @@ Proof.
   assert (Hpub : forall hh s m, shr h hh -> shr h (publish hh s m)).
   { intros hh s m R. eapply shr_trans; [exact R|apply shr_publish]. }
   pose proof (shr_refl h) as R0.
-  destruct q as [|users rs|tag|l|l|ic|tag]; cbn [fst]; auto.
+  destruct q as [|users rs|tag|l|l|ic|tag|ok]; cbn [fst]; auto.
   - match goal with |- shr _ (fold_left ?f ?l ?h0) => apply (wf_fold_left_hub (fun hh => shr h hh) f l h0) end.
     + match goal with |- shr _ (fold_left ?f ?l ?h0) => apply (wf_fold_left_hub (fun hh => shr h hh) f l h0) end; auto.
     + intros hh y Hhh. destruct (aget (h_rs2 hh) (1000000 + y)); auto.
@@ -488,6 +488,10 @@ Proof.
     apply Hpub. match goal with |- shr _ (fold_left ?f ?l ?h0) => apply (wf_fold_left_hub (fun hh => shr h hh) f l h0) end; auto.
     intros hh [[i icv] pm] Hhh. destruct i; auto. destruct pm; auto.
   - match goal with |- context [match ?o with [] => _ | _ => _ end] => destruct o end; cbn [fst]; auto.
+  - (* dial-out *)
+    destruct ok; cbn [negb fst]; [|exact R0]. destruct (dialout_session h b) as [x|]; [|exact R0].
+    destruct (send_session h x (SDialout room)) as [h1 o1] eqn:H1. cbn [fst]. apply Hpub.
+    rewrite (fst_eq _ _ _ H1). apply shr_send_session.
 Qed.
 
 Lemma shr_do_tick h secs : shr h (fst (do_tick h secs)).
@@ -1072,7 +1076,7 @@ Proof. apply bij_equiv, equiv_leave_call. Qed.
 Lemma bij_room_request h k q : Bij h -> Bij (fst (room_request h k q)).
 Proof.
   intros B. unfold room_request. destruct (room_of h k) as [r|] eqn:Hroom; [|exact B].
-  destruct q as [|users rs|tag|l|l|ic|tag].
+  destruct q as [|users rs|tag|l|l|ic|tag|ok]; [| | | | | | |exact B].
   - match goal with |- context [fold_sessions h ?int ?f] => set (internals := int); set (g := f) end.
     destruct (fold_sessions h internals g) as [h0 o0] eqn:H0.
     assert (B0 : Bij h0).
@@ -1148,7 +1152,7 @@ Qed.
 Lemma bij_do_api h b room q : Bij h -> Bij (fst (do_api h b room q)).
 Proof.
   intros B. unfold do_api.
-  destruct q as [|users rs|tag|l|l|ic|tag]; cbn [fst]; try (now apply bij_publish).
+  destruct q as [|users rs|tag|l|l|ic|tag|ok]; cbn [fst]; try (now apply bij_publish).
   - apply wf_fold_left_hub.
     + apply wf_fold_left_hub; [exact B|]. intros hh y Hhh. now apply bij_publish.
     + intros hh y Hhh. destruct (aget (h_rs2 hh) (1000000 + y)); [now apply bij_publish|exact Hhh].
@@ -1156,6 +1160,10 @@ Proof.
     apply bij_publish. apply wf_fold_left_hub; [exact B|].
     intros hh [[i icv] pm] Hhh. destruct i; try exact Hhh. destruct pm; [now apply bij_publish|exact Hhh].
   - match goal with |- context [match ?o with [] => _ | _ => _ end] => destruct o end; cbn [fst]; [exact B|now apply bij_publish].
+  - (* dial-out *)
+    destruct ok; cbn [negb fst]; [|exact B]. destruct (dialout_session h b) as [x|]; [|exact B].
+    destruct (send_session h x (SDialout room)) as [h1 o1] eqn:H1. cbn [fst]. apply bij_publish.
+    rewrite (fst_eq _ _ _ H1). now apply bij_send_session.
 Qed.
 
 Lemma bij_do_tick h secs : Bij h -> Bij (fst (do_tick h secs)).
@@ -1569,7 +1577,7 @@ Proof.
   assert (Hpub : forall hh m, match m with ARoomReq (AInCall _) | ASessionJoined _ _ => False | _ => True end ->
                    Fr b oc hh (publish hh (SubjRoom (fst k) (snd k)) m)).
   { intros hh m Hm. apply fr_publish. now apply pub_ok_plain. }
-  destruct q as [|users rs|tag|l|l|ic|tag].
+  destruct q as [|users rs|tag|l|l|ic|tag|ok]; [| | | | | | |apply loc_ret].
   - (* delete *)
     match goal with |- context [fold_sessions h ?int ?f] => set (internals := int); set (g := f) end.
     assert (L0 : Loc b oc h (fold_sessions h internals g)).
@@ -1810,13 +1818,20 @@ Proof.
   now apply sess_on_spec.
 Qed.
 
+(* Hub.GetDialoutSession looks at the backend of the candidates: what it finds is a session of b *)
+Lemma dialout_session_b h b x : dialout_session h b = Some x -> bsid b h x.
+Proof.
+  unfold dialout_session. intros Hf. apply find_some in Hf as [_ Hok]. unfold dialout_ok in Hok.
+  intros s Hs. rewrite Hs in Hok. apply andb_prop in Hok as [Hb _]. now apply N.eqb_eq in Hb.
+Qed.
+
 Lemma loc_do_api b oc h room q : TI h -> rs_local h (OApi b b room q) = true -> Loc b oc h (do_api h b room q).
 Proof.
   intros TIh Hl. unfold do_api.
   assert (Hreq : forall q', match q' with AInCall _ => False | _ => True end ->
                    Loc b oc h (publish h (SubjBackendRoom b room) (ARoomReq q'), [])).
   { intros q' Hq'. apply loc_fr, fr_publish. split; cbn; [reflexivity|]. destruct q'; try exact I. contradiction. }
-  destruct q as [|users rs|tag|l|l|ic|tag]; try (apply Hreq; exact I).
+  destruct q as [|users rs|tag|l|l|ic|tag|ok]; try (apply Hreq; exact I).
   - (* disinvite *)
     apply loc_fr. cbn [rs_local] in Hl. rewrite forallb_forall in Hl.
     set (P := fun hh => Fr b oc h hh /\ h_rs2 hh = h_rs2 h /\ h_sessions hh = h_sessions h).
@@ -1841,6 +1856,13 @@ Proof.
     cbn [rs_local] in Hl. fold (resolved h l). pose proof (resolved_ok b h l Hl) as Hok.
     destruct (resolved h l) as [|u0 us] eqn:El; [apply loc_ret|]. rewrite <- El in *. apply loc_fr.
     apply fr_publish. split; cbn; [reflexivity|exact Hok].
+  - (* dial-out: the request goes to a dial-out session of the request's backend *)
+    destruct ok; cbn [negb]; [|apply loc_ret].
+    destruct (dialout_session h b) as [x|] eqn:Hd; [|apply loc_ret].
+    pose proof (loc_send_session b oc h x (SDialout room) TIh (dialout_session_b h b x Hd)) as L.
+    destruct (send_session h x (SDialout room)) as [h1 o1].
+    apply (loc_then_fr b oc h (h1, o1)); [exact L|]. cbn [fst].
+    apply fr_publish. now apply pub_ok_plain.
 Qed.
 Lemma ti_do_api h b room q : TI h -> TI (fst (do_api h b room q)).
 Proof. intros TIh. apply (ti_next h); [exact TIh|apply shr_do_api|apply bij_do_api, TIh]. Qed.
@@ -3017,3 +3039,60 @@ Lemma isolation_refuted_without_rs_local :
   (exists s s', get_sess h 1 = Some s /\
      get_sess (fst (qstep h (OApi 1 1 9 (AParticipants [(IdRS 5, 0, Some 24)])))) 1 = Some s' /\ s_perms s = None /\ s_perms s' = Some 24).
 Proof. vm_compute. split; [eexists; split; reflexivity|]. split; [reflexivity|]. eexists. eexists. repeat split; reflexivity. Qed.
+
+(* ------------------------------------------------------------------ the dial-out request of the room API *)
+(* what a dial-out request writes is the request itself *)
+Lemma send_dialout_outs h x r c m : In (ToConn c m) (snd (send_session h x (SDialout r))) -> m = SDialout r.
+Proof.
+  unfold send_session. match goal with |- context [deliver_to_session h ?t _] => generalize t end. intros t.
+  unfold deliver_to_session. destruct (get_sess h t) as [s|]; [|intros []].
+  cbv beta iota zeta. destruct (s_conn s) as [c'|]; cbn [snd In is_closing].
+  - intros [E|[]]. now injection E.
+  - intros [].
+Qed.
+
+Lemma dialout_session_none h b :
+  (forall sid s, In sid (h_dialout h) -> get_sess h sid = Some s -> s_backend s = b -> s_conn s = None) ->
+  dialout_session h b = None.
+Proof.
+  intros Hno. destruct (dialout_session h b) as [x|] eqn:Hd; [|reflexivity]. exfalso.
+  unfold dialout_session in Hd. apply find_some in Hd as [Hin Hok]. unfold dialout_ok in Hok.
+  destruct (get_sess h x) as [s|] eqn:Hs; [|discriminate]. apply andb_prop in Hok as [Hb Hc].
+  apply N.eqb_eq in Hb. rewrite (Hno x s Hin Hs Hb) in Hc. discriminate.
+Qed.
+
+(* A dial-out request of backend b (whoever signed it, whatever room and number): every message it causes
+   is the request itself, written to a connection of a session of b; no session of another backend changes,
+   appears or disappears; and when b has no connected dial-out client - whatever clients OTHER backends
+   have - nothing happens at all. *)
+Theorem dialout_own_backend h b signas room ok : TI h ->
+  let r := step h (OApi b signas room (ADialout ok)) in
+  (forall c m, In (ToConn c m) (snd r) -> m = SDialout room /\ bconn b h c) /\
+  (forall sid s, s_backend s <> b -> get_sess h sid = Some s \/ get_sess (fst r) sid = Some s ->
+     get_sess (fst r) sid = get_sess h sid) /\
+  ((forall sid s, In sid (h_dialout h) -> get_sess h sid = Some s -> s_backend s = b -> s_conn s = None) -> r = (h, [])).
+Proof.
+  intros TIh. cbv zeta. cbn [step].
+  destruct (negb (N.eqb b signas) || (h_nb h <=? b)).
+  { split; [intros c m []|]. split; [reflexivity|reflexivity]. }
+  pose proof (loc_do_api b None h room (ADialout ok) TIh eq_refl) as [F O].
+  split; [|split].
+  - intros c m Hin. split.
+    + revert Hin. unfold do_api. destruct ok; cbn [negb]; [|intros []].
+      destruct (dialout_session h b) as [x|]; [|intros []].
+      pose proof (send_dialout_outs h x room c m) as Hs. destruct (send_session h x (SDialout room)) as [h1 o1].
+      cbn [snd] in *. exact Hs.
+    + destruct (O c m Hin) as [E|Hc]; [discriminate|exact Hc].
+  - intros sid s Hne Hs. apply (fr_sess _ _ _ _ F sid s Hs Hne).
+  - intros Hno. unfold do_api. destruct ok; cbn [negb]; [|reflexivity]. now rewrite (dialout_session_none h b Hno).
+Qed.
+
+(* not vacuous: tenant 0 has a connected dial-out client; a request of tenant 1 reaches nobody, a request of
+   tenant 0 reaches that client; once tenant 1 has a client of its own, its request reaches that one *)
+Example dialout_two_tenants :
+  let h := qrun (init [0; 0] false) [OConnect 1 0; OConnect 2 0; OHello 1 (HInternal 0 0 false true)] in
+  snd (qstep h (OApi 1 1 5 (ADialout true))) = [] /\
+  snd (qstep h (OApi 0 0 5 (ADialout true))) = [ToConn 1 (SDialout 5)] /\
+  snd (qstep h (OApi 0 0 5 (ADialout false))) = [] /\
+  snd (qstep (fst (qstep h (OHello 2 (HInternal 1 0 false true)))) (OApi 1 1 5 (ADialout true))) = [ToConn 2 (SDialout 5)].
+Proof. vm_compute. repeat split; reflexivity. Qed.
